@@ -214,7 +214,7 @@ bloc::Value * UTF8Plugin::executeMethod(
   case utf8::Reserve:
   {
     bloc::Value& a0 = args[0]->value(ctx);
-    if (a0.isNull())
+    if (a0.isNull() || *a0.integer() < 0)
       throw RuntimeError(EXC_RT_OTHER_S, "Invalid arguments.");
     u->Reserve(*a0.integer());
     return new bloc::Value(bloc::Bool(true));
